@@ -97,11 +97,18 @@ def oracle(ck, extended):
         nb, c = rng.randint(1, 2), rng.randint(1, 2)
         low = gen.float_tensor(ck.nprng, (nb, c, lh, lw)); highs = [gen.float_tensor(ck.nprng, (nb, c, 6, a, b_, 2)) for a, b_ in hsz]
         rt.guard(ck, oracle_inv, ck, b, s, bt, qt, low, highs, '%s/%s' % (b, s))
+        # thresholded pyramids: some levels PRESENT but identically zero (not the same call as an absent level),
+        # compared with the reference package, not with the library's own zeros path
+        zs = [j for j in range(J) if rng.random() < 0.5] or [rng.randrange(J)]
+        highs_z = [np.zeros_like(h) if j in zs else h for j, h in enumerate(highs)]
+        rt.guard(ck, oracle_inv, ck, b, s, bt, qt, low if rng.random() < 0.8 else np.zeros_like(low), highs_z, '%s/%s zero levels %s' % (b, s, [j + 1 for j in zs]))
     for it in range((20 if q else 200) * (3 if extended else 1)):
         bt = OD.int_biort(rng, gen); qt = OD.int_qshift(rng, gen)
         J = rng.randint(1, 3)
         (lh, lw), hsz = pyramid_shapes(rng.randint(2, 22), rng.randint(2, 22), J)
         low = gen.int_tensor(rng, (1, 1, lh, lw), 3); highs = [gen.int_tensor(rng, (1, 1, 6, a, b_, 2), 3) for a, b_ in hsz]
+        if it % 3 == 2:
+            k = rng.randrange(J); highs[k] = np.zeros_like(highs[k])
         rt.guard(ck, oracle_inv, ck, bt, qt, bt, qt, low, highs, 'integer filters')
     # deterministic witness of the recorded finding (12x20 image, J=3, level 2 absent)
     g_w = dt_filters(rng); (lh_w, lw_w), hsz_w = pyramid_shapes(12, 20, 3)
